@@ -135,6 +135,15 @@ class PerturbCase(Case):
                                           Implies(And(raw > ub[j], raw - ub[j] <= width), close(out, 2 * ub[j] - raw))))
                             props.append((f"{tag}.mirror_reflects_lower",
                                           Implies(And(raw < lb[j], lb[j] - raw <= width), close(out, 2 * lb[j] - raw))))
+                            # larger overshoots are reflected again at the other bound (folded), up to 4 widths here
+                            u, d = raw - ub[j], lb[j] - raw
+                            for k in (1, 2, 3):
+                                seg_u = And(u > width * k, u <= width * (k + 1))
+                                seg_d = And(d > width * k, d <= width * (k + 1))
+                                exp_u = (lb[j] + (u - width * k)) if k % 2 == 1 else (ub[j] - (u - width * k))
+                                exp_d = (ub[j] - (d - width * k)) if k % 2 == 1 else (lb[j] + (d - width * k))
+                                props.append((f"{tag}.mirror_folds_upper_overshoot_{k}_to_{k + 1}_widths", Implies(seg_u, close(out, exp_u))))
+                                props.append((f"{tag}.mirror_folds_lower_overshoot_{k}_to_{k + 1}_widths", Implies(seg_d, close(out, exp_d))))
                         elif self.bkind[j] == "upper":
                             props.append((f"{tag}.mirror_reflects_upper", Implies(raw > ub[j], close(out, 2 * ub[j] - raw))))
                         elif self.bkind[j] == "lower":
